@@ -20,3 +20,9 @@ pub fn hav_good(lon1: f64, lat1: f64, lon2: f64, lat2: f64) -> f64 {
 pub fn hav_bad(lon1: f64, lat1: f64, lon2: f64, lat2: f64) -> f64 {
   squared_half_segment(lon2 - lon1, lat2 - lat1, lon1.cos(), lat2.cos())
 }
+
+/// cancellation twins: sin^2(d/2) in the half-angle form and in the cancelling short form
+pub fn shs_half_angle(d: f64) -> f64 { let s = (0.5 * d).sin(); s * s }
+pub fn shs_one_minus_cos(d: f64) -> f64 { 0.5 * (1.0 - d.cos()) }
+pub fn polar_radius_half_angle(lat: f64) -> f64 { 6.0_f64.sqrt() * (0.5 * lat + std::f64::consts::FRAC_PI_4).cos() }
+pub fn polar_radius_one_minus_sin(lat: f64) -> f64 { (3.0 * (1.0 - lat.sin())).sqrt() }
